@@ -413,7 +413,8 @@ func (p *parser) parseDeclare() Node {
 			Unionstr = p.current.Value
 		}
 		if p.current.Is(CodeQuote) {
-			Codestr += p.current.Value
+			// several %{ %} blocks: keep them on separate lines
+			Codestr += p.current.Value + "\n"
 		}
 		if p.current.Is(TokenDirective) {
 			TokDefList = append(TokDefList, *p.parseTokendef())
